@@ -173,6 +173,8 @@ class DatasetSpec(object):
         d = Path(d)
         d.mkdir(parents=True, exist_ok=True)
         for name, arr in self.files().items():
+            if self.notes.get('fortran') and getattr(arr, 'ndim', 1) == 2 and not name.startswith('pc_') and 'feature' not in name:
+                arr = np.asfortranarray(arr)        # column-major .npy files, as MATLAB exporters write them
             np.save(d / name, arr)
         dat_paths = []
         if self.raw is not None:
